@@ -1,0 +1,15 @@
+//go:build verif
+
+package fluentdforward
+
+// Add-only exports for the verification harness (property C11).
+
+// VerifSetChunkLimits sets the package variables read by Config.NewChunkMaker and returns the previous values.
+func VerifSetChunkLimits(maxRecords, maxSizeBytes int) (oldMaxRecords, oldMaxSizeBytes int) {
+	oldMaxRecords, oldMaxSizeBytes = chunkMaxRecords, chunkMaxSizeBytes
+	chunkMaxRecords, chunkMaxSizeBytes = maxRecords, maxSizeBytes
+	return
+}
+
+// VerifChunkIDSuffix returns the output-specific chunk ID suffix.
+func VerifChunkIDSuffix() string { return chunkIDSuffix }
